@@ -56,6 +56,9 @@ def executions(lines):
                 cur["end"] = l
             elif l.startswith("S "):
                 cur["sched"] = l[2:]
+                cur = None          # the execution's record ends with its schedule line
+            elif l.startswith("N ") or l == "":
+                pass
             else:
                 cur["lines"].append(l)
     return out
